@@ -38,8 +38,10 @@ BadDefsFor(name) ==      \* definitions that make a call invalid
     \cup (IF IsMarkName(name) THEN {Def("P", 80, <<>>, "")} ELSE {})
 
 \* ---- events: one record shape, so that behaviours can be written out as JSON ----
-Ev(a, k, name, def, ids, v) == [a |-> a, k |-> k, name |-> name, def |-> def, ids |-> ids, v |-> v]
+Ev(a, k, name, def, ids, v) == [a |-> a, k |-> k, name |-> name, def |-> def, ids |-> ids, v |-> v, convs |-> <<>>]
 E0(a) == Ev(a, 0, "", NoDef, <<>>, "")
+EvC(a, name, cs, v, k) == [a |-> a, k |-> k, name |-> name, def |-> NoDef, ids |-> <<>>, v |-> v, convs |-> cs]
+ConvLists == {<<>>} \cup {<<c>> : c \in ConvNames} \cup (IF Invalid THEN {<<"ghost">>} \cup {<<c, "ghost">> : c \in ConvNames} ELSE {})
 IdLists == {<<0>>, <<1>>, <<0, 2>>, <<7>>}
 
 JobEvents == {E0(a) : a \in {"ImportCompute", "ImportDone", "TagCompute", "TagDone", "MergeCompute", "MergeDone",
@@ -53,6 +55,10 @@ ApiEvents ==
     \cup {Ev(a, 0, n, NoDef, s, "") : a \in {"MarkAdd", "MarkDel"}, n \in {m \in TagNames : IsMarkName(m) \/ Invalid}, s \in IdLists}
     \cup {Ev("ViewOpen", 0, "", NoDef, <<>>, "v" \o ToString(i)) : i \in 0 .. MaxCalls}
     \cup {Ev("ViewRelease", 0, "", NoDef, <<>>, v) : v \in DOMAIN views}
+    \cup (IF ConvNames = {} THEN {} ELSE
+             {EvC("SetConverters", n, cs, "", 0) : n \in TagNames, cs \in ConvLists}
+             \cup {EvC("ConvReset", "", <<c>>, "", 0) : c \in ConvNames}
+             \cup {EvC("ViewConvert", "", <<c>>, v, s) : c \in ConvNames, v \in DOMAIN views, s \in 0 .. 2})
 
 Spend == calls' = calls + 1 /\ UNCHANGED clock
 Free  == UNCHANGED <<clock, calls>>
@@ -84,6 +90,9 @@ Step(e) ==
       [] e.a = "ViewOpen"      -> /\ Budget /\ Cardinality(DOMAIN views) < MaxViews
                                   /\ e.v = "v" \o ToString(calls) /\ ViewOpen(e.v) /\ Spend
       [] e.a = "ViewRelease"   -> ViewRelease(e.v) /\ Free
+      [] e.a = "SetConverters" -> Call(SetConvOK(e.name, Range(e.convs)), SetConverters(e.name, Range(e.convs)))
+      [] e.a = "ConvReset"     -> Budget /\ ConvReset(e.convs[1]) /\ Spend
+      [] e.a = "ViewConvert"   -> Budget /\ ViewConvert(e.v, e.k, e.convs[1]) /\ Spend
 
 MCInit == Init /\ clock = 0 /\ calls = 0
 MCNext == \E e \in JobEvents \cup ApiEvents : Step(e)
